@@ -246,7 +246,7 @@ func (p c05in) runGrammarOn(g *spec.Grammar, idx int) (o Outcome) {
 
 func init() { register(c05in{}) }
 
-func (c05in) ID() string                 { return "C05" }
+func (c05in) ID() string { return "C05" }
 func (p c05in) NumCases(tier string) int {
 	return p.matrixCases(tier) + p.grammarCases(tier) + tinyCases(tier)
 }
